@@ -12,7 +12,7 @@ CHECKS["C03"] = ("exploration", "5.C03", "refinement of command histories agains
   "Seeded search over list/set/hash histories; replies compared with the model (unordered replies as multisets, random picks constrained to current members and then followed), stored dataset compared after every command. Histories and arguments are unbounded, so they are sampled.")
 CHECKS["C04"] = ("exploration", "5.C04", "refinement against a reference model plus a structural invariant walk of the real skip list after every command, tower shapes varied by the entropy seed",
   "Seeded search over sorted-set histories with colliding scores; replies compared numerically with the model; after every command the real skip list is walked by verif_check_invariants (order, level subsequences, index/length agreement, no NaN) and its level-0 chain compared with the model. Sampled, not enumerated.")
-CHECKS["C05"] = ("exploration", "5.C05", "seeded delivery schedules (segmentation, interleaving, small socket buffers, slow readers) over a simulated transport, reply stream decoded by an independent RESP reader and matched 1:1 against requests",
+CHECKS["C05"] = ("exploration", "5.C05", "seeded delivery schedules (segmentation, interleaving, small socket buffers, slow readers) and transient recv/send faults (EINTR, EAGAIN, short transfers) injected at the libc boundary of a simulated transport, reply stream decoded by an independent RESP reader and matched 1:1 against requests",
   "Seeded search over pipelines x segmentations x connection interleavings x reply-side flow control; oracle: exactly one well-formed reply per request in order, of the expected kind, with promptness checked at sync points where the client stops sending and waits. Segmentations are sampled (with forced alignment to the 8192-byte read size).")
 CHECKS["C06"] = ("exploration", "5.C06", "hostile-input simulation: systematic boundary walk over the command table extracted from the source plus byte-level hostile frames, with panic/exit/deadlock/hang detection by the scheduler and an allocator seam",
   "Every server thread runs under the simulator, so a panic, exit(), deadlock (all threads futex-blocked) or hang (watchdog) is observed deterministically; the allocator seam records the largest single request and refuses absurd ones; a fresh connection must then be served and sentinel data be intact. The boundary walk is systematic over a stated finite catalogue (command x position x 50 values) spread over run indices; the rest is sampled.")
@@ -38,7 +38,7 @@ CHECKS["C19"] = ("exploration", "5.C19", "seeded cursor iterations driven throug
   "Seeded search over key sets (0-400 elements, all types), COUNT/MATCH/TYPE options and interleavings of additions and deletions between SCAN/HSCAN/SSCAN/ZSCAN calls; completeness, soundness w.r.t. filters, reply shape and termination are decided over each recorded iteration. Key sets, options and interleavings are sampled.")
 CHECKS["C09"] = ("exploration", "5.C09", "crash-restart simulation: the dataset is built through the real command path, SAVE, the simulated process is killed, virtual clocks advance by a chosen downtime, a fresh server instance is booted from the same simulated directory; canonical dumps before and after are compared",
   "Seeded search over datasets (all six types, sizes at every length-encoding boundary up to 70000 elements, binary / marker / integer-like strings, all score classes, stream id limits, 16 databases, TTLs around the downtime) and downtimes; the oracle compares the stored dataset of the restarted process with the one saved, incl. deadlines to clock granularity. Datasets are unbounded, so they are sampled with forced boundary values.")
-CHECKS["C10"] = ("exploration", "5.C10", "fault injection at the libc disk boundary (errno, short write, crash before / after k bytes at the n-th open / write / rename of a save) with restart from the surviving directory; simulator-stepped background-save thread interleaved with client commands at guarded yield points; start-up from seeded damaged dump files under an allocation seam",
+CHECKS["C10"] = ("exploration", "5.C10", "fault injection at the libc disk boundary (errno, short write, crash before / after k bytes at the n-th open / write / rename of a save) with restart from the surviving directory; simulator-stepped background-save thread interleaved with client commands at guarded yield points (BGSAVE and saves started by the auto-save monitor thread); start-up from seeded damaged dump files under an allocation seam",
   "Seeded search over (F) the failure point and kind of one save, (S) interleavings of the snapshot thread's per-key steps with commands that change, re-type, expire and delete those keys, and (D) prefixes / byte corruptions of valid dumps. Oracles: the dump on disk is byte-identical after a failed save and always loads to exactly the previous or the new dataset; every (value, deadline) pair in a concurrent snapshot was held by that key at one recorded instant; damaged files never cause a panic, a hang or an allocation sized by a length field. Failure points are enumerated densely for the first operations and sampled beyond; interleavings and corruptions are sampled.")
 CHECKS["C11"] = ("exploration", "5.C11", "multi-connection simulation with appendonly on; at checkpoints the AOF bytes on the simulated disk are parsed by an independent RESP reader and replayed into a second, fresh simulated server; canonical dumps of both instances are compared; transient AOF write faults injected at the libc boundary",
   "Seeded search over histories of the write-command catalogue through all execution paths (direct, MULTI/EXEC, EVAL/EVALSHA, immediate and served blocking pops), in one or two databases, with values that are not valid UTF-8, under all three fsync policies and with failing / short AOF writes; oracle: the AOF is a sequence of complete command frames and its replay yields the live dataset (values, presence of deadlines). Histories are sampled.")
